@@ -452,6 +452,31 @@ func checkC10(c *Ctx) {
 			}
 		}
 		r.Check(okk, "C10.4", "registrationAddr <- the wrapper's registration address", w.Pos(), fnName(w), "store", "the registrant address announced to the detector is not the one the v4/v6 admission test examined")
+		// ... on every path to a registration: the client field of an announcement is rendered from it, and a nil
+		// address renders as "<nil>", which the detector refuses
+		stores := map[ssa.Instruction]bool{}
+		for _, st := range fieldStores(w, "lib.DecoyRegistration", "registrationAddr") {
+			stores[st] = true
+		}
+		eachInstr(w, func(in ssa.Instruction) {
+			ret, ok := in.(*ssa.Return)
+			if !ok || len(ret.Results) != 2 || ret.Block().Comment == "recover" {
+				return
+			}
+			if k, isC := returnedValue(ret, 1, nil).(*ssa.Const); !isC || k.Value != nil {
+				return // error return
+			}
+			if k, isC := returnedValue(ret, 0, nil).(*ssa.Const); isC && k.Value == nil {
+				return
+			}
+			skip, wit := reach(w, nil, isInstr(ret), inSet(stores), nil)
+			if skip {
+				r.Bad("C10.4", "NewRegistrationC2SWrapper: a registration can be returned without a registrant address", ret.Pos(), fnName(w),
+					"a path returns a registration whose registrationAddr was never set: sendToDetector renders the client field from it, a nil address prints as \"<nil>\", and the detector drops New and Update as an invalid client - the station accepts the registration and the detector never diverts it", r.blockPath(w, wit)...)
+			} else {
+				r.OK("C10.4", "NewRegistrationC2SWrapper: every returned registration carries the registrant address", ret.Pos(), "must-pass store before the nil-error return")
+			}
+		})
 	}
 
 	// ---- C10.6
